@@ -10,6 +10,7 @@ import subprocess
 import tempfile
 import time
 
+import gen
 import sx
 
 HERE = os.path.dirname(os.path.abspath(__file__))
@@ -63,6 +64,8 @@ def _worker(job):
         for i in idxs:
             rng = case_rng(seed, comp_name, i)
             c = comp.make(rng, params)
+            if c is not None and comp.name in gen.LATIN1_COMPONENTS and rng.random() < 0.2:
+                c = gen.latin1ify(rng, c)
             if c is not None:
                 cases.append((i, c))
     lines = []
